@@ -12,7 +12,7 @@ EXPLANATION = ('PROVED by abstract interpretation of the traced programs (a soun
                'physics environment on every supported native backend, reset and step trace without error (total), step returns a State of exactly the structure, '
                'shapes and dtypes it receives (so it can be iterated), the observation width equals observation_size and the accepted action width equals '
                'action_size, the traced programs have no side effects and are identical when traced twice (pure, deterministic function of key and actions), and '
-               'reset.done is the constant 0 independent of the key (dead-code elimination leaves no input).  BOUNDED (not proof): finiteness of observations, '
+               'reset.done is the constant 0 independent of the key (dead-code elimination leaves no input); the traced reset / step programs, text AND constants, are identical in three fresh interpreters started with different PYTHONHASHSEED (a function of key and actions, not of the process).  BOUNDED (not proof): finiteness of observations, '
                'rewards, joint states and unit link quaternions over wrapped rollouts with uniform and bang-bang actions.')
 TRUSTED = ['jax.eval_shape / make_jaxpr abstract semantics', 'XLA executes the traced program deterministically']
 ASSUMPTIONS = ['environments are traced in jax default 32-bit mode (dtype stability under jax_enable_x64 is not claimed by the property)', 'finiteness over histories is NOT decided by proof (floating point, whole-history property): bounded stand-in only',
